@@ -18,7 +18,7 @@ func init() {
 		ID: "C06", Level: "model_checking",
 		Rule:   "ELX: peer INITIAL_WINDOW_SIZE in {0,1,5}; a prelude response of 65530 bytes leaves the connection window at 5; 1-2 (quick) / 3 (thorough) streams with response sizes from {0,1,3,6,16384,16385,40000}, buffered or streamed; every sequence up to the depth bound of {handler i returns, WINDOW_UPDATE(stream i, 1|2|big), WINDOW_UPDATE(0, 1|3|big), SETTINGS_INITIAL_WINDOW_SIZE in {0,1,4,70000}, RST_STREAM(i)}; then a closing phase grants everything. Oracle: the peer's ledger (initial windows, SETTINGS deltas, WINDOW_UPDATE credits, DATA debits) never goes below zero at a DATA frame, no DATA frame above 16384, at every quiescent state no stream with unsent bytes has both windows positive, and every response completes with END_STREAM once. Non-trivial: a window blocked a send at some point of the sequence; distinct by (config, sequence).",
 		Assume: []string{"canonical internal schedule between events", "DATA frames are attributed to windows in the order the peer receives them"},
-		Run:    runC06, Replay: replayC06, Policies: 1, QuickS: 120, ThoroughS: 900,
+		Run:    runC06, Replay: replayC06, Policies: 1, QuickS: 200, ThoroughS: 900,
 	})
 }
 
